@@ -46,13 +46,17 @@ func parseUrlPath(pathStr string, m meta.Definition) ([]*Path, error) {
 		}
 
 		// find meta associated with path ident
-		seg.Meta = meta.Find(p.Meta.(meta.HasDefinitions), ident)
+		parentDefs, hasDefs := p.Meta.(meta.HasDefinitions)
+		if !hasDefs {
+			return nil, fmt.Errorf("%w. cannot select %s inside %s", fc.BadRequestError, ident, p.Meta.Ident())
+		}
+		seg.Meta = meta.Find(parentDefs, ident)
 		if seg.Meta == nil {
 			// check for fully qualified ident
 			if colon := strings.IndexRune(ident, ':'); colon > 0 {
 				module := ident[:colon]
 				ident = ident[colon+1:]
-				potential := meta.Find(p.Meta.(meta.HasDefinitions), ident)
+				potential := meta.Find(parentDefs, ident)
 				if potential != nil {
 					if meta.OriginalModule(potential).Ident() == module {
 						seg.Meta = potential
